@@ -64,7 +64,9 @@ func (t *TextTable) RenderTo(w io.Writer) error {
 			continue
 		}
 		for i, cell := range row.Cells() {
-			if i > columnCount {
+			if i >= columnCount {
+				// more cells than the table has columns (a row that was also added
+				// to another table and extended there): nowhere to show them
 				break
 			}
 			d := CellPropertyExtractDimensions(&cell)
